@@ -260,10 +260,13 @@ def find_function(qual):
             return mod, cls, cls.getters[fname[:-4]], "getter"
         if fname.endswith("@set"):
             return mod, cls, cls.setters[fname[:-4]], "setter"
-        if fname in cls.methods:
-            return mod, cls, cls.methods[fname], cls.kinds[fname]
-        if fname in cls.getters:
-            return mod, cls, cls.getters[fname], "getter"
+        for c in cls.mro():        # inherited methods resolve through the MRO read from the source
+            if not isinstance(c, ClassInfo):
+                continue
+            if fname in c.methods:
+                return c.mod, c, c.methods[fname], c.kinds[fname]
+            if fname in c.getters:
+                return c.mod, c, c.getters[fname], "getter"
         raise KeyError(qual)
     kind, node = mod.defs[rest]
     assert kind == "func", qual
